@@ -122,6 +122,8 @@ def _apply_mutant(root: str, m: Dict[str, Any]) -> None:
         if s.count(ed["old"]) != 1:
             raise RuntimeError(f"mutant {m['id']}: pattern occurs {s.count(ed['old'])} times in {ed['file']}")
         open(p, "w").write(s.replace(ed["old"], ed["new"]))
+        # a mutant must still compile: one that does not would be "caught" by nothing and missed for the wrong reason
+        compile(open(p).read(), p, "exec")
 
 
 def _run_check_on(repo: str, cid: str, runs: Optional[int]) -> Tuple[int, str]:
